@@ -4,8 +4,8 @@ import json, os
 ROOT = os.path.dirname(os.path.dirname(os.path.abspath(__file__)))
 T = {
  "C01": ("stateful generation + reference-model oracle (due-work ledger)", "Generated definitions x outcome tables x schedules, checked step by step against an independent due-work ledger; exploration, not proof: it shows the property on every generated case and finds counterexamples where a shape or interleaving breaks it.", "model restricted to the closed xl expression grammar; route numbers taken from the public return value of get_next_tasks; join N late arrival (R1) truncated"),
- "C02": ("stateful generation + invariant over every step (harness ledger + reference model)", "Status invariant asserted after every API call of generated histories with pause/resume/cancel anywhere.", "harness ledger defines in-flight; 'handled' from the language docs; R1 truncated"),
- "C03": ("stateful generation + quiescence invariant (liveness as safety at harness-made quiescent points)", "At every quiescent point of generated histories the status must be resting; the harness owns the schedule so quiescence is observable exactly.", "probe poll is a pure query (C19); rerun only after unhandled task failure (R10/R11 owned by C17)"),
+ "C02": ("stateful generation + invariant over every step (harness ledger + reference model)", "Status invariant asserted after every API call of generated histories with pause/resume/cancel anywhere.", "harness ledger defines in-flight; 'handled' from the language docs; R1 truncated; directed fork-join and items-siblings parts"),
+ "C03": ("stateful generation + quiescence invariant (liveness as safety at harness-made quiescent points)", "At every quiescent point of generated histories the status must be resting; the harness owns the schedule so quiescence is observable exactly.", "probe poll is a pure query (C19); rerun only after unhandled task failure (R10/R11 owned by C17); in part of the runs the first status report of a dispatched action is made late (before the provider polls again)"),
  "C04": ("stateful generation past terminal + exhaustive 16x status request table on copies (state-diff oracle)", "Histories continued past the first terminal status with generated suffixes; every status requested on copies of reachable states; rejected => serialize() byte-identical.", "only 'rejected => no effect' and terminal finality are asserted"),
  "C05": ("lock-step differential (never-persisted twin vs persisted/restored twin) over generated histories", "Differential: two conductors receive the same calls, one is persisted/restored at generated points through a real JSON round trip; any observable difference is a violation.", "persistence = json round trip of serialize()"),
  "C06": ("generated publish placements x schedules against a reference model of contexts with provenance (publish events and supersede sets)", "The user-visible context and rendered input of every offered task, and the output, are compared with a model that tracks which publish events reached each execution and which supersede which.", "scalar/list values; split-task executions matched to pending model contexts; R3 matched narrowly; R1 truncated"),
@@ -15,7 +15,7 @@ T = {
  "C10": ("stateful generation with one cancel at a generated position + ledger/model invariant", "Cancellation invariant (no offers, canceling/canceled by ledger, final canceled, output renders) on generated histories.", "definitions cannot fail expressions (C11 owns that); dormant != in flight"),
  "C19": ("cross-process differential replay under different PYTHONHASHSEED values + idempotence probe at every poll point", "Generated definitions (accepted and rejected mutants) and histories replayed in 4 interpreters with different hash seeds, digests compared step by step; three consecutive get_next_tasks() compared at every poll point with state diff.", "children use the same library-free driver; canonical JSON for objects, ordered comparison for lists"),
  "C11": ("exhaustive fault-injection matrix (position x failure kind x language x history variant) + generated hosts with a planted failing expression", "Every expression position, every failure kind that inspection lets through, both languages, at every kind of history point where that position is evaluated, enumerated completely; plus random hosts/schedules.", "clean-up tasks beside a fail command may still be offered (C04's documented exception)"),
- "C12": ("generated item lists/concurrency/outcomes/interleavings with an item-level ledger oracle", "With-items task driven under generated interleavings with pause/resume/cancel; item ledger checks once/in order/window/value/result order/iff-succeeded.", "item RUNNING is reported at dispatch, atomically with the poll"),
+ "C12": ("generated item lists/concurrency/outcomes/interleavings with an item-level ledger oracle", "With-items task driven under generated interleavings with pause/resume/cancel; item ledger checks once/in order/window/value/result order/iff-succeeded.", "item RUNNING is reported at dispatch, atomically with the poll; an in-flight item may acknowledge a cancellation with `canceling` before `canceled`"),
  "C13": ("generated retry policies/commands x per-attempt outcome sequences; engine's retry decisions validated against a reference model + state-diff oracle per retried attempt", "Every observed retry must be allowed by the model (count, condition, workflow active); delays checked on offers; the retrying call may not publish, create records, stage successors or change status; later offers justified by the due ledger.", "upper-bound reading of the statement (declined retries are counted, not alarmed)"),
  "C14": ("generated definitions vs independent reference graph construction + metamorphic declaration-order permutations + serialisation round trip", "Composer output compared as sets of nodes/edges/keys/attributes with a reference built from the IR; every or 7 sampled permutations of the declaration order; round trip.", "the `splits` node attribute is not part of the statement and not compared"),
  "C15": ("stateful generation over accepted definitions with an exception oracle + single-fault mutation of accepted definitions with an inspection-report oracle", "Soundness: any exception escaping a conductor API call on a generated legal history of an accepted definition is a violation. Completeness: every planted fault (class x position x reference form) must be reported by inspect() at its site.", "documented rejections of status requests are not internal errors; R11 (owned by C17) abandons the run"),
